@@ -71,7 +71,8 @@ static int tbl_check(Table t, TModel *m, const char *what)
 	return 1;
 }
 
-#define T_NOPS 15
+#define T_NOPS 16
+static TblElt tmap_inc(TblElt e) { return (TblElt)((long) e + 1); }
 /* returns 0 on violation */
 static int tbl_run(int seed, const int *ops, int len, int checklast_only, unsigned long long *ph)
 {
@@ -131,6 +132,12 @@ static int tbl_run(int seed, const int *ops, int len, int checklast_only, unsign
 				m.present[TK + j] = 1; m.val[TK + j] = 1000 + j; m.n++;
 				extra++;
 			}
+		}
+		else if (op == 15) {         /* map over all entries in place: each entry exactly once, colliding chains included */
+			int j;
+			Table r = tblNMap((TblMapEltFun) tmap_inc, t);
+			if (r != t) { vh_violation("mode=table kind=nmap-result %s", what); ok = 0; }
+			for (j = 0; j < TK + TPRE; j++) if (m.present[j]) m.val[j]++;
 		}
 		VH_MIX(h, m.n);
 		if (ok && (!checklast_only || i == len - 1) && !tbl_check(t, &m, what)) ok = 0;
